@@ -7,6 +7,7 @@ import tempfile
 
 import common as C
 import c17_sizes as DS
+import c17_readers as DR
 
 COQ_FILES = ("L5_Stores/Codec.v", "L5_Stores/CodecProofs.v", "Properties/C17.v")
 EXTRACTED = ("ConstCodec",)
@@ -414,7 +415,17 @@ def run(rep, tier, seed, proof_ok):
                 "local.string / local.bytes wrote it; the reference recorded is the one the Coq model selects; "
                 "the same values as results of functions kept through the PUBLIC API (dds.eval of a pipeline of dds.keep, then a second dds.keep - which must not execute "
                 "the function -, dds.load, the data-directory file; in the writing process and in a second process; registrations before / between / in the second process; "
-                "with and without the object cache); distinct = distinct case; "
+                "with and without the object cache); "
+                "the READING PROCESS'S REGISTRY dimension: blobs written (local store and DBFS store over the fake dbutils) by user file codecs / codecs registered under references of "
+                + str(sum(len(v) for v in DR.REF_SHAPES.values())) + " shapes - ending like a builtin reference (.string / .bytes / .pickle / .pandas / .pyspark), with several dots, "
+                "equal to a builtin reference but for the case / a blank / a separator, prefixes and extensions of builtin references, legacy dbfs.* / default.* references on the local "
+                "store, unrelated - in a format of their own that the builtin codec of the same kind would read without failing, x value types (str, bytes, object, user class, None, int, "
+                "frame), read through fetch_blob and dds.load by processes of " + str(len(DR.READERS)) + " classes: registered the writing codec among unrelated ones in another order "
+                "(the value, equal), registered nothing / only other codecs under near-miss references (must fail with the DDS error PROTOCOL_NOT_FOUND - never a value decoded by a codec "
+                "that did not write it), registered ANOTHER codec under the same reference (decoded by that codec, the one bound to the reference, never by a builtin), registers the "
+                "writing codec only after a first failed read (error, then the value), registered the writing codec then another file codec under its reference (file codecs never rebind: "
+                "the value) / the other file codec then the writing codec as a codec (rebinds: the value); blobs written by the builtin codecs next to them are read equal by every class; "
+                "distinct = distinct case; "
                 "non-trivial = at least one registration between write and read; + writer killed between the rename of the blob and the rename of its "
                 "metadata, the key stored again by a process with other registrations, read there and in a third process")
     n = 10 if tier == "quick" and proof_ok else 80
@@ -441,12 +452,15 @@ def run(rep, tier, seed, proof_ok):
     shapes = Shapes()
     quick = tier == "quick" and proof_ok
     size_cases = sized_cases(random.Random(f"{seed}:sized"), tier, quick)          # its own generator: the other cases of a seed do not move
+    reader_cases = DR.reader_cases(random.Random(f"{seed}:readers"), tier, quick)    # the reading process's registry (c17_readers.py), its own generator too
     with cf.ThreadPoolExecutor(max_workers=C.NPROC) as ex:
         api_futures = [ex.submit(run_api, c) for c in api_cases]
         size_futures = [ex.submit(run_sized, c) for c in size_cases]
+        reader_futures = [ex.submit(DR.run_reader_case, c) for c in reader_cases]
         res = list(ex.map(run_case, cases))
         api_res = [f.result() for f in api_futures]
         size_res = [f.result() for f in size_futures]
+        reader_res = [f.result() for f in reader_futures]
     # model: which reference each write selects, after the pre registrations
     exprs = []
     for c in cases:
@@ -521,6 +535,7 @@ def run(rep, tier, seed, proof_ok):
                     rep.violation(f"not-verbatim:{v[0]}", f"the blob file of a {v[0]} result is not the text / the bytes themselves", {"case": c, "value": v[:1], "raw": x[:80]})
     n_api_values = check_api(rep, api_res, shapes)
     size_dist = check_sized(rep, size_res, size_model)
+    reader_dist = DR.check_readers(rep, reader_res)
     shapes.report(rep)
     nk, nk_killed = check_killed(rep, rng, 16 if tier == "quick" and proof_ok else 120)
     rep.extra["input_distribution"] = {"cases": len(cases), "writes_by_selected_reference": refs, "killed_before_metadata_cases": nk, "of_which_reached_the_kill_point": nk_killed,
@@ -536,12 +551,17 @@ def run(rep, tier, seed, proof_ok):
                                                                         "multi-byte (first / middle / last)", "one multi-byte character across byte P", "a multi-byte character across every multiple of P",
                                                                         "fewer than P characters but more than P bytes", "1/2/3/4-byte mixture", "bytes / bytearray of P-1 / P / P+1 bytes",
                                                                         "dict / list / user class / str subclass (pickle) holding such texts", "frames with more than 2**16 rows"],
-                                                              channels=["fetch_blob", "blob file", "second dds.keep", "dds.load", "data-directory file", "all of them in a second process"])}
+                                                              channels=["fetch_blob", "blob file", "second dds.keep", "dds.load", "data-directory file", "all of them in a second process"]),
+                                       "reading_process_registry_dimension": dict(reader_dist, reference_shapes={k: len(v) for k, v in DR.REF_SHAPES.items()}, reader_classes=DR.READERS,
+                                                                                  stores=["local", "dbfs (fake dbutils)"], channels=["fetch_blob", "dds.load"])}
     rep.sample({"pre": cases[0]["pre"], "mid": cases[0]["mid"], "value_types": [v[0] for v in cases[0]["values"]]})
 
 
 def replay(path):
     r = json.load(open(path))["replay"]
+    if "reader_case" in r:
+        DR.replay_case(r["reader_case"])
+        return 1
     if "sized_case" in r:
         c = r["sized_case"]
         out = run_sized(c)
